@@ -30,7 +30,7 @@ func init() {
 		ID:    "C03",
 		Level: "exploration",
 		Rule: "cases = generated frame scripts (1-6 messages x 1-5 fragments incl. empty ones, compressed per message with sync-flush or BFINAL=1 endings and stored blocks, pings/pongs/Close before, between and inside messages, 0-2 injected violations from the catalogue), mutated scripts and random bytes, " +
-			"each delivered under a transport chunking (whole / per frame / 1 byte / random / every single split offset for short scripts) to a library endpoint of either role and compared with the streaming reference endpoint on the same bytes. " +
+			"each delivered under a transport chunking (whole / per frame / 1 byte / random / every single split offset for short scripts / everything sent before the handshake completes, so that it waits in the transport or in the hijacked connection's read buffer) to a library endpoint of either role and compared with the streaming reference endpoint on the same bytes. " +
 			"distinct key = (role, agreement, how the stream ends per the reference [violation class | close | eof position], transport chunking, reader mode, script features)",
 		Gen:         c03Gen,
 		CaseTimeout: 120 * time.Second,
@@ -68,6 +68,11 @@ func c03Gen(tier string, seed int64) []fw.Case {
 			if ch == "byte" && i%3 != 0 {
 				continue
 			}
+			add(d)
+		}
+		if i%2 == 0 {
+			// the peer has sent everything before the handshake is over on this side
+			d.Chunking = "early"
 			add(d)
 		}
 	}
@@ -189,7 +194,11 @@ func c03Run(r *fw.R, d c03Desc) {
 	case "split":
 		plan.ReadCuts = []int{d.Split}
 	}
-	c, _, peerEnd, err := libConn(d.Role, d.Params, 0, xport.Plan{}, plan)
+	var early []byte
+	if d.Chunking == "early" {
+		early = stream
+	}
+	c, _, peerEnd, err := libConnEarly(d.Role, d.Params, 0, xport.Plan{}, plan, early)
 	if err != nil {
 		r.Violate("C03/attach-failed", err.Error(), "")
 		return
@@ -200,7 +209,9 @@ func c03Run(r *fw.R, d c03Desc) {
 	peer := newRawPeer(peerEnd, d.Role, d.Params, d.Seed)
 	peer.Start()
 	defer peerEnd.Close()
-	peerEnd.Write(stream)
+	if early == nil {
+		peerEnd.Write(stream)
+	}
 	peerEnd.CloseWrite()
 
 	ctx, cancel := deadlineCtx(30 * time.Second)
